@@ -10,10 +10,12 @@ pub mod util;
 pub mod world;
 pub mod c01_tree;
 pub mod c03_filters;
+pub mod c06_triggers;
 pub mod c07_window;
 pub mod c13_names;
 pub mod c16_time;
 pub mod c18_ansi;
+pub mod c19_env;
 pub mod c20_literals;
 pub mod selftest;
 pub mod probe;
@@ -24,10 +26,12 @@ pub fn tables() -> Vec<(&'static str, &'static [(&'static str, fn())])> {
         ("probe", probe::TABLE),
         ("c01_tree", c01_tree::TABLE),
         ("c03_filters", c03_filters::TABLE),
+        ("c06_triggers", c06_triggers::TABLE),
         ("c07_window", c07_window::TABLE),
         ("c13_names", c13_names::TABLE),
         ("c16_time", c16_time::TABLE),
         ("c18_ansi", c18_ansi::TABLE),
+        ("c19_env", c19_env::TABLE),
         ("c20_literals", c20_literals::TABLE),
     ]
 }
